@@ -124,7 +124,13 @@ def literal_obligations(chk):
     def inv(I, path, env, k):
         t, val = box["t"], box["val"]
         return [Q([IntS], lambda j: z3.Implies(z3.And(j >= 0, j < k), z3.Not(pyeq(vv(t, j), val))), name="no-earlier-match")]
-    I.loop_specs[(func, 0)] = LoopSpec("literals", lambda I, p, e, k: None, inv)
+    # two passes (fix 4d8ae83): a literal of the value's own class first (True == 1, yet Literal[True, 1] declares both), then any equal
+    def inv_exact(I, path, env, k):
+        t, val = box["t"], box["val"]
+        return [Q([IntS], lambda j: z3.Implies(z3.And(j >= 0, j < k), z3.Not(z3.And(cls_of(vv(t, j)) == cls_of(val), pyeq(vv(t, j), val)))),
+                  name="no-earlier-match-of-the-same-class")]
+    I.loop_specs[(func, 0)] = LoopSpec("literals-of-the-same-class", lambda I, p, e, k: None, inv_exact)
+    I.loop_specs[(func, 1)] = LoopSpec("literals", lambda I, p, e, k: None, inv)
 
     def mk2(I, path):
         r = mk(I, path)
@@ -154,6 +160,10 @@ def _literal_one(chk, func, pi, path, out, obls, cur, nv, vv, pyeq):
         chk.add(Ob(func, names[1], pid, hy + [Q([IntS], lambda j: z3.Implies(z3.And(j >= 0, j < nv(t)),
                                                                            z3.Not(pyeq(vv(t, j), val))), name="non-member")],
                    z3.BoolVal(False)))
+        # a declared literal equal to the value *and of its class* is the one emitted (C01 / C13: 1 stays 1 under Literal[True, 1])
+        j1 = path.fresh("j1", IntS)
+        chk.add(Ob(func, "a-declared-literal-of-the-value's-own-class-is-preferred", pid,
+                   hy + [j1 >= 0, j1 < nv(t), pyeq(vv(t, j1), val), cls_of(vv(t, j1)) == cls_of(val)], cls_of(r) == cls_of(val)))
     else:
         is_ve = isinstance(out.exc.exc_cls, type) and issubclass(out.exc.exc_cls, ValueError)
         chk.add(Ob(func, names[0], pid, hy, z3.BoolVal(True), {"trivial": True}))
